@@ -161,7 +161,14 @@ pub fn gen_paragraphs(src: &mut Src, _i: usize) -> Case {
             if src.chance(1, 9) {
                 s.push_str(*src.pick(&["\x1b[31m", "\x1b[1;44m", "\x1b[m", "\x1b[7m", "\x1b[38;5;200m"]));
             }
-            s.push((b'a' + ((p * 5 + k) % 26) as u8) as char);
+            if k + 1 == len && src.chance(1, 4) {
+                // the last character of a logical line from another width class (zero-width
+                // marks and joiners, wide CJK / emoji, no-break space): it is content like
+                // any other and must survive every re-wrap
+                s.push(*src.pick(&['\u{301}', '\u{200b}', '\u{200d}', '\u{fe0f}', '世', '😀', 'é', '\u{a0}']));
+            } else {
+                s.push((b'a' + ((p * 5 + k) % 26) as u8) as char);
+            }
         }
         if p + 1 < np {
             s.push_str("\r\n");
@@ -283,7 +290,7 @@ pub fn gen_large(src: &mut Src, _i: usize) -> Case {
 
 /// every (cols, rows) -> (cols', rows') on tiny sizes for a few fixed contents and cursors
 fn enum_all_pairs() -> Vec<Case> {
-    let contents = ["abcdefghijklmnop", "ab\r\ncdefgh\r\ni", "abcdefgh\x1b[H", "abc\r\n\r\ndefghijk\x1b[2;2H", "abcdefghijkl\x1b[1;3H\x1b[K"];
+    let contents = ["abcde\u{301}\r\nxy\u{200b}\r\nz", "abcdefghijklmnop", "ab\r\ncdefgh\r\ni", "abcdefgh\x1b[H", "abc\r\n\r\ndefghijk\x1b[2;2H", "abcdefghijkl\x1b[1;3H\x1b[K"];
     let mut v = vec![];
     for content in contents {
         for c1 in 1..=5usize {
@@ -303,7 +310,7 @@ pub fn run(env: &Env) -> PropRun {
     let j = |c: &Case, t: &mut Tally| judge("", c, t);
     let mut parts = vec![];
     let ep = enum_all_pairs();
-    parts.push(run_part(env, "enum-all-size-pairs", ep.len(), true, "5 contents x every (cols 1-5, rows 1-4) -> (cols 1-6, rows 1-4)", &|i| ep.get(i).cloned(), &j));
+    parts.push(run_part(env, "enum-all-size-pairs", ep.len(), true, "6 contents x every (cols 1-5, rows 1-4) -> (cols 1-6, rows 1-4)", &|i| ep.get(i).cloned(), &j));
     parts.push(random_part(env, "paragraphs", env.tier.scale(80_000, 40), &gen_paragraphs, &j));
     parts.push(random_part(env, "regions-and-origin", env.tier.scale(40_000, 40), &gen_regions, &j));
     parts.push(random_part(env, "large-and-long", env.tier.scale(600, 30), &gen_large, &j));
